@@ -87,11 +87,26 @@ fn ensure_file(sdir: &Path, path: &Path, disk: &[u8]) {
 fn render(recs: &[Rec]) -> Vec<u8> {
     let mut t = b"$NetBSD$\n\n".to_vec();
     for r in recs {
-        for (a, h) in &r.sums {
+        // where the Size line of a file stands among its checksum lines varies
+        // (behind them as pkgsrc writes it, in front of them, in between): a
+        // recorded line counts wherever it stands
+        let at = match (r.name.len() + r.sums.len()) % 3 {
+            0 => r.sums.len(),
+            1 => 0,
+            _ => r.sums.len() / 2,
+        };
+        for (i, (a, h)) in r.sums.iter().enumerate() {
+            if i == at {
+                if let Some(n) = r.size {
+                    t.extend_from_slice(&size_line(&r.name, n));
+                }
+            }
             t.extend_from_slice(&sum_line(*a, &r.name, h));
         }
-        if let Some(n) = r.size {
-            t.extend_from_slice(&size_line(&r.name, n));
+        if at >= r.sums.len() {
+            if let Some(n) = r.size {
+                t.extend_from_slice(&size_line(&r.name, n));
+            }
         }
     }
     t
